@@ -321,17 +321,41 @@ where
                 if std::env::var_os("VERIF_DEBUG").is_some() {
                     eprintln!("worker {}: original failure reason: {}", args.worker, reason);
                 }
-                // re-run the minimal case to obtain its verdict
-                let rep = run_case(&case);
-                let v = rep
-                    .violations
-                    .iter()
-                    .find(|v| def.prefixes.iter().any(|p| v.key.starts_with(p)) && !known.is_known(def.id, &v.key))
-                    .cloned()
-                    .unwrap_or(Viol {
-                        key: format!("{}/unstable", def.id),
-                        msg: "shrunk case did not reproduce deterministically".into(),
-                    });
+                // re-run the minimal case to obtain its verdict; families that run real runtimes
+                // under real time (adapters, bursts) may need several attempts
+                let find = |rep: &CaseReport| rep.violations.iter().find(|v| def.prefixes.iter().any(|p| v.key.starts_with(p)) && !known.is_known(def.id, &v.key)).cloned();
+                let mut case = case;
+                let mut rep = run_case(&case);
+                let mut found = find(&rep);
+                for _ in 0..4 {
+                    if found.is_some() {
+                        break;
+                    }
+                    rep = run_case(&case);
+                    found = find(&rep);
+                }
+                if found.is_none() {
+                    // fall back to the case that failed first (unshrunk)
+                    let ff = first_failure.borrow().clone();
+                    if let Some(orig) = ff.as_ref().and_then(|f| f.get("case")).and_then(|c| serde_json::from_value::<C>(c.clone()).ok()) {
+                        for _ in 0..5 {
+                            let r2 = run_case(&orig);
+                            if let Some(v) = find(&r2) {
+                                found = Some(v);
+                                rep = r2;
+                                case = orig;
+                                break;
+                            }
+                        }
+                    }
+                }
+                let v = found.unwrap_or_else(|| {
+                    // observed once on the real code, not reproduced in ten further attempts
+                    let ff = first_failure.borrow();
+                    let k = ff.as_ref().and_then(|f| f["key"].as_str().map(|s| s.to_string()));
+                    let m = ff.as_ref().and_then(|f| f["msg"].as_str().map(|s| s.to_string())).unwrap_or_default();
+                    Viol { key: k.unwrap_or_else(|| format!("{}/unstable", def.id)), msg: format!("{} [observed in the search, not reproduced in 10 re-runs of the shrunk and the original case: timing-dependent]", m) }
+                });
                 let mut cj = serde_json::to_value(&case).unwrap();
                 if v.key.ends_with("/unstable") {
                     if let (Some(o), Some(ff)) = (cj.as_object_mut(), first_failure.borrow_mut().take()) {
